@@ -611,6 +611,10 @@ def R4_criteria(ctx):
     rows = [r for r in table(b) if r.end == "return" and r.sel.get(("arg", 1)) == "Exact"]
     ok = len(rows) == 1 and as_cmp(rows[0].ret) and as_cmp(rows[0].ret)[0] == "Eq" and {as_cmp(rows[0].ret)[1], as_cmp(rows[0].ret)[2]} == {("arg", 2), ("arg", 3)}
     ctx.check(bool(ok), "Exact", "Exact is not `solution_size == k`", b.where(), detail="size == k")
+    # the criteria are total functions of (k, solution size): `factor` and `max` come from the configuration unvalidated
+    # (0 is accepted), so a division or remainder by them turns an answerable query into a panic
+    divs = [(bb, blk["term"].get("msg")) for bb, blk in enumerate(b.blocks) if not blk["cleanup"] and blk["term"]["k"] == "assert" and blk["term"].get("msg") in ("DivisionByZero", "RemainderByZero")]
+    ctx.check(not divs, "criteria:total", "terminate_search divides by a configured value that may be 0 (%s): the query panics instead of terminating" % [m for _, m in divs][:2], b.where(divs[0][0]) if divs else b.where(), detail="no division by factor / max")
     qb = F.need(K + "ksp_query::KspQuery::<'a>::new")
     oks = [r for r in table(qb) if r.end == "return" and result_variant(r.ret) == "Ok"]
     ks = set()
